@@ -311,7 +311,10 @@ def wrapper_obligations(chk, prefix, want):
             u = s.get(c.update)
             goal = z3.And(z3.BoolVal(len(cps) == 1), u["operation_type"].t == enum_sort(tcls)[1]["EXECUTION"], u["action"].t == enum_sort(acls)[1]["FAIL"], z3.Not(is_none(u["error"])), zst("FAILED"), z3.Not(he))
             if prefix in ("C16", "C03", "C11"):
-                chk.prove(f"{prefix}.exec.large_error", s.pc, z3.Implies(z3.BoolVal(not cp_failed), goal), desc="an oversized FAILED response is replaced by an EXECUTION FAIL record (sent once, synchronously) and returned without the error payload")
+                from .hobl import error_matches
+                err_u = strip_opt(u["error"]) if isinstance(u["error"], Opt) else u["error"]
+                goal = z3.And(goal, error_matches(s, err_u, e, eng), z3.BoolVal(c.is_sync is True) if isinstance(c.is_sync, bool) else zbool(c.is_sync))
+                chk.prove(f"{prefix}.exec.large_error", s.pc, z3.Implies(z3.BoolVal(not cp_failed), goal), desc="an oversized FAILED response is replaced by an EXECUTION FAIL record (sent once, synchronously) that carries the handler's error (message AND type, as ErrorObject.from_exception builds it), and is returned without the error payload")
         if "C11" in want:
             last_cp = max((i for i, e2 in enumerate(tr) if e2.kind == "cp"), default=None)
             chk.prove(f"{prefix}.exec.result_once_last", s.pc, len(cps) <= 1, desc="at most one execution-level result record per invocation, and the wrapper sends nothing after it")
